@@ -63,6 +63,10 @@ pub struct SocksCase {
     /// sent (a slow or stalled peer) for the whole conversation
     #[serde(default)]
     pub staller: Option<u8>,
+    /// with cut delivery: the client pauses for 3.4 s at its first cut (a slow client, a lossy link) -
+    /// wherever that falls, also in the middle of a field
+    #[serde(default)]
+    pub long_pause: bool,
 }
 
 pub struct SocksFam;
@@ -84,6 +88,10 @@ async fn read_some(s: &mut TcpStream, want: usize, ms: u64) -> (Vec<u8>, bool) {
 }
 
 async fn send_segments(s: &mut TcpStream, bytes: &[u8], delivery: u8, cuts: &[u16]) -> bool {
+    send_segments_paused(s, bytes, delivery, cuts, false).await
+}
+
+async fn send_segments_paused(s: &mut TcpStream, bytes: &[u8], delivery: u8, cuts: &[u16], long_pause: bool) -> bool {
     let mut pts: Vec<usize> = match delivery {
         0 => vec![],
         1 => (1..bytes.len()).collect(),
@@ -94,12 +102,14 @@ async fn send_segments(s: &mut TcpStream, bytes: &[u8], delivery: u8, cuts: &[u1
     pts.retain(|p| *p > 0 && *p < bytes.len());
     pts.push(bytes.len());
     let mut from = 0usize;
-    for p in pts {
+    let n = pts.len();
+    for (i, p) in pts.into_iter().enumerate() {
         if s.write_all(&bytes[from..p]).await.is_err() {
             return false;
         }
         from = p;
-        tokio::time::sleep(Duration::from_millis(if delivery == 1 { 1 } else { 3 })).await;
+        let long = long_pause && delivery >= 2 && i == 0 && n > 1;
+        tokio::time::sleep(Duration::from_millis(if long { 3400 } else if delivery == 1 { 1 } else { 3 })).await;
     }
     true
 }
@@ -129,9 +139,9 @@ impl Family for SocksFam {
             (atyp, proptest::bool::weighted(0.05), dest),
             (0u8..4, proptest::collection::vec(any::<u16>(), 1..5), any::<bool>()),
             prop_oneof![Just(Vec::new()), proptest::collection::vec(any::<u8>(), 1..200)],
-            (proptest::bool::weighted(0.3), proptest::option::weighted(0.3, 0u8..3)),
+            (proptest::bool::weighted(0.3), proptest::option::weighted(0.3, 0u8..3), proptest::bool::weighted(0.025)),
         )
-            .prop_map(|((g_ver, g_methods, r_ver, cmd, rsv), (atyp, zero_len_domain, dest), (delivery, cuts, glue_request), payload, (neighbour, staller))| SocksCase {
+            .prop_map(|((g_ver, g_methods, r_ver, cmd, rsv), (atyp, zero_len_domain, dest), (delivery, cuts, glue_request), payload, (neighbour, staller, long_pause))| SocksCase {
                 g_ver,
                 g_methods,
                 r_ver,
@@ -146,6 +156,7 @@ impl Family for SocksFam {
                 payload,
                 neighbour,
                 staller,
+                long_pause,
             })
             .boxed()
     }
@@ -225,7 +236,7 @@ impl Family for SocksFam {
                     wire.extend_from_slice(&request);
                     wire.extend_from_slice(&case.payload);
                 }
-                send_segments(&mut s, &wire, case.delivery, &case.cuts).await;
+                send_segments_paused(&mut s, &wire, case.delivery, &case.cuts, case.long_pause && case.glue_request).await;
                 let (sel, closed) = read_some(&mut s, 2, 3000).await;
                 let desc = format!("greeting {:02x?}.. request {:02x?}", &greeting[..greeting.len().min(6)], &request[..request.len().min(10)]);
                 if !greet_ok {
@@ -239,7 +250,7 @@ impl Family for SocksFam {
                     if !glue {
                         let mut rest = request.clone();
                         rest.extend_from_slice(&case.payload);
-                        send_segments(&mut s, &rest, case.delivery, &case.cuts).await;
+                        send_segments_paused(&mut s, &rest, case.delivery, &case.cuts, case.long_pause).await;
                     }
                     let (rep, rclosed) = read_some(&mut s, 10, 12_000).await;
                     let accepted_now = |t: &TcpTarget, i: usize| t.n_conns() > before2[i];
@@ -338,6 +349,7 @@ impl Family for SocksFam {
         out.class_if(tunnel_expected, "tunnel");
         out.class_if(case.glue_request && greet_ok, "glued");
         out.class_if(case.staller.is_some(), "stalled-peer-alongside");
+        out.class_if(case.long_pause && case.delivery >= 2, "3.4s-pause-at-a-cut");
         Ok(out)
     }
 }
